@@ -6,6 +6,7 @@ import (
 	"fmt"
 	"go/token"
 	"go/types"
+	"os"
 	"sort"
 	"strings"
 
@@ -810,7 +811,7 @@ func (ex *Exec) assumeEnsures(ctx *EvalCtx, st, pre *State, c *FuncContract, sig
 		}
 		return terms
 	}
-	if ctx.guard != nil || ex.noOblige > 0 {
+	if ctx.guard != nil || ex.noOblige > 0 || !c.Definitional || os.Getenv("GOVC_NODEF") != "" {
 		for _, t := range evalAll() {
 			ex.assume(st, t)
 		}
@@ -852,6 +853,7 @@ func (ex *Exec) assumeEnsures(ctx *EvalCtx, st, pre *State, c *FuncContract, sig
 		conj = append(conj, conjuncts(t)...)
 	}
 	subst := map[*Term]*Term{}
+	var defs []*Term // the defining equations are kept as facts: earlier facts (type ranges) mention the constants
 	contains := func(t, x *Term) bool {
 		found := false
 		seen := map[int]bool{}
@@ -876,12 +878,38 @@ func (ex *Exec) assumeEnsures(ctx *EvalCtx, st, pre *State, c *FuncContract, sig
 	for _, cj := range conj {
 		if cj.Op == "=" {
 			a, b := cj.Args[0], cj.Args[1]
+			// result == value for a structured fresh result: define it component-wise
+			decomposed := false
+			for side := 0; side < 2 && !decomposed; side++ {
+				m, o := cj.Args[side], cj.Args[1-side]
+				if m.Op != "mk" || len(m.Args) == 0 {
+					continue
+				}
+				allFresh := true
+				for _, part := range m.Args {
+					if !freshSet[part] || subst[part] != nil || contains(o, part) {
+						allFresh = false
+					}
+				}
+				if allFresh {
+					for i, part := range m.Args {
+						subst[part] = p.Acc(o, i)
+					}
+					defs = append(defs, cj)
+					decomposed = true
+				}
+			}
+			if decomposed {
+				continue
+			}
 			if freshSet[a] && subst[a] == nil && !contains(b, a) {
 				subst[a] = b
+				defs = append(defs, cj)
 				continue
 			}
 			if freshSet[b] && subst[b] == nil && !contains(a, b) {
 				subst[b] = a
+				defs = append(defs, cj)
 				continue
 			}
 		}
@@ -917,13 +945,10 @@ func (ex *Exec) assumeEnsures(ctx *EvalCtx, st, pre *State, c *FuncContract, sig
 		for k, v := range st.ghost {
 			st.ghost[k] = p.Subst(v, subst)
 		}
-		// phase 2: forget the side effects of phase 1 and evaluate again with the pinned result
-		ex.facts = ex.facts[:nf]
-		for k := range ex.shiftCache {
-			if !shiftKeys[k] {
-				delete(ex.shiftCache, k)
-			}
-		}
+		// phase 2: evaluate again with the pinned result (side-effect facts of phase 1 are kept: some are cached
+		// definitions that would not be re-added)
+		_ = nf
+		_ = shiftKeys
 		bindResults2(post.vars, sig, res)
 		keep = nil
 		for _, t := range evalAll() {
@@ -973,6 +998,9 @@ func (ex *Exec) assumeEnsures(ctx *EvalCtx, st, pre *State, c *FuncContract, sig
 		keep = keep2
 	}
 	for _, t := range keep {
+		ex.assume(st, t)
+	}
+	for _, t := range defs {
 		ex.assume(st, t)
 	}
 	return res
